@@ -216,7 +216,9 @@ func mapDynamoToTypesPutItemInput(input *dynamodb.PutItemInput) *types.PutItemIn
 		ReturnConsumedCapacity:      toString(string(input.ReturnConsumedCapacity)),
 		ReturnItemCollectionMetrics: toString(string(input.ReturnItemCollectionMetrics)),
 		ReturnValues:                toString(string(input.ReturnValues)),
-		TableName:                   input.TableName,
+
+		ReturnValuesOnConditionCheckFailure: toString(string(input.ReturnValuesOnConditionCheckFailure)),
+		TableName:                           input.TableName,
 	}
 }
 
@@ -357,7 +359,9 @@ func mapDynamoToTypesDeleteItemInput(input *dynamodb.DeleteItemInput) *types.Del
 		ReturnConsumedCapacity:      toString(string(input.ReturnConsumedCapacity)),
 		ReturnItemCollectionMetrics: toString(string(input.ReturnItemCollectionMetrics)),
 		ReturnValues:                toString(string(input.ReturnValues)),
-		TableName:                   input.TableName,
+
+		ReturnValuesOnConditionCheckFailure: toString(string(input.ReturnValuesOnConditionCheckFailure)),
+		TableName:                           input.TableName,
 	}
 }
 
